@@ -328,41 +328,85 @@ def check_case(case, R, tag, impl, lines, mod):
 
 
 # ----------------------------------------------------------- histories
-# The integrator caches `_has_dt_adapt` on its first call; later calls must
-# still give the documented value for the *current* particles (inlets add
-# particles to arrays that start out empty, outlets empty them).
+# One integrator lives through a whole run: set_fixed_h and compute_time_step
+# are called many times on arrays that change in between (particles come and
+# go, h changes, criterion properties are added or removed, an array that was
+# empty at the first call fills up).  The integrator caches `_has_dt_adapt`,
+# `fixed_h` and `h_minimum`; no cache may make a later step differ from the
+# documented value for the *current* particles.  The model runs the same op
+# sequence as a state machine (Model.AdaptDt.IState) and its state is compared
+# with the integrator's attributes after every op.
+
+def _gen_arrays(rng, prev, fixed_props=None):
+    """next array specs from the previous ones (names and count are fixed)"""
+    nxt = []
+    for a in prev:
+        n = rng.choice([0, 1, 2, 3, 5])
+        if rng.random() < 0.35:
+            n = len(a['tag'])
+        nghost = min(n, rng.choice([0, 0, 1]))
+        hstyle = rng.choice(['any', 'any', 'small', 'big'])
+        if hstyle == 'small':
+            h = [10 ** rng.uniform(-4, -1) for _ in range(n)]
+        elif hstyle == 'big':
+            h = [10 ** rng.uniform(0.2, 1.5) for _ in range(n)]
+        else:
+            h = [10 ** rng.uniform(-3, 1.5) for _ in range(n)]
+        names = set(a['props'])
+        # criterion properties come and go (append_parray / add_property /
+        # remove_property between steps); dt_adapt changes rarely because the
+        # statement's "when that property is used" is decided at the first call
+        for c in CRIT:
+            if rng.random() < 0.18:
+                names ^= {c}
+        if rng.random() < 0.03:
+            names ^= {'dt_adapt'}
+        props = {}
+        for c in sorted(names):
+            if c == 'dt_adapt':
+                props[c] = [10 ** rng.uniform(-6, 0) for _ in range(n)]
+            else:
+                big = rng.random() < 0.3
+                props[c] = [rng.choice([0.0, 10 ** rng.uniform(-4, 4)]) * (100.0 if big else 1.0)
+                            for _ in range(n)]
+        nxt.append({'name': a['name'], 'tag': [0] * (n - nghost) + [2] * nghost,
+                    'h': h, 'props': props})
+    return nxt
+
 
 def gen_history(rng):
     base = gen_case(rng)
-    base['fixed_h'] = False
-    base['h_scale_after_fix'] = 1.0
-    steps = [base['arrays']]
-    for k in range(rng.choice([1, 2, 3])):
-        nxt = []
-        for a in steps[-1]:
-            n = rng.choice([0, 1, 2, 3, 5])
-            if rng.random() < 0.3:
-                n = len(a['tag'])
-            nghost = min(n, rng.choice([0, 0, 1]))
-            b = {'name': a['name'], 'tag': [0] * (n - nghost) + [2] * nghost,
-                 'h': [10 ** rng.uniform(-3, 1.5) for _ in range(n)],
-                 'props': {}}
-            for c in a['props']:
-                if c == 'dt_adapt':
-                    b['props'][c] = [10 ** rng.uniform(-6, 0) for _ in range(n)]
-                else:
-                    b['props'][c] = [rng.choice([0.0, 10 ** rng.uniform(-4, 4)])
-                                     for _ in range(n)]
-            nxt.append(b)
-        steps.append(nxt)
-    if rng.random() < 0.5:
-        # the interesting start: arrays carrying dt_adapt begin empty
-        for a in steps[0]:
-            if 'dt_adapt' in a['props']:
+    base.pop('fixed_h', None)
+    base.pop('h_scale_after_fix', None)
+    arrays0 = base.pop('arrays')
+    if rng.random() < 0.4:
+        # the interesting start: some arrays begin empty and bare (an outlet
+        # buffer), and gain particles and properties later
+        for a in arrays0:
+            if rng.random() < 0.6:
                 a['tag'] = []
                 a['h'] = []
-                a['props'] = {c: [] for c in a['props']}
-    base['steps'] = steps
+                a['props'] = {} if rng.random() < 0.5 else {c: [] for c in a['props']}
+    ops = []
+    cur = arrays0
+    nops = rng.choice([3, 4, 6, 9])
+    for k in range(nops):
+        z = rng.random()
+        if z < 0.3:
+            ops.append({'op': 'fix', 'b': rng.random() < 0.65})
+        elif z < 0.6:
+            cur = _gen_arrays(rng, cur)
+            ops.append({'op': 'set', 'arrays': cur})
+        elif z < 0.7:
+            # only h changes (refinement), everything else stays
+            f = rng.choice([0.5, 0.25, 2.0, 0.1])
+            cur = [dict(a, h=[v * f for v in a['h']]) for a in cur]
+            ops.append({'op': 'set', 'arrays': cur})
+        else:
+            ops.append({'op': rng.choice(['cts', 'cts', 'sol'])})
+    ops.append({'op': 'cts'})
+    base['arrays0'] = arrays0
+    base['ops'] = ops
     return base
 
 
@@ -370,6 +414,12 @@ def reload(pa, a):
     n0 = pa.get_number_of_particles()
     if n0:
         pa.remove_particles(list(range(n0)))
+    for k in list(pa.properties):
+        if k in CRIT + ('dt_adapt',) and k not in a['props']:
+            pa.remove_property(k)
+    for k in a['props']:
+        if k not in pa.properties:
+            pa.add_property(k)
     n = len(a['tag'])
     if n:
         kw = dict(x=np.arange(n, dtype=float), h=np.array(a['h']),
@@ -380,11 +430,41 @@ def reload(pa, a):
     pa.align_particles()
 
 
+def _conv(r):
+    if r is None:
+        return 'none'
+    r = float(r)
+    return 'inf' if math.isinf(r) else ('val', r)
+
+
+def _arr_tokens(pas):
+    toks = []
+    for pa in pas:
+        n = pa.get_number_of_particles()
+        t = ['A', 'n=%d' % n,
+             'h=' + H.flist(list(map(float, pa.get('h', only_real_particles=False))))]
+        for key, nm in (('ad', 'dt_adapt'), ('c', 'dt_cfl'), ('f', 'dt_force'),
+                        ('v', 'dt_visc')):
+            t.append('%s=%s' % (key, H.flist(list(map(float, pa.get(nm))))
+                                if nm in pa.properties else '-'))
+        toks += t
+    return ' '.join(toks)
+
+
+def _impl_state(integ):
+    fl = integ._has_dt_adapt
+    hm = getattr(integ, 'h_minimum', None)
+    return 'flag=%s fixed=%s hmin=%s' % (
+        '-' if fl is None else ('1' if fl else '0'),
+        '1' if integ.fixed_h else '0',
+        '-' if hm is None else ('inf' if math.isinf(float(hm)) else H.fbits(float(hm))))
+
+
 def run_history(hc):
-    pas = build({'arrays': hc['steps'][0]})
+    """returns (model lines, impl answers, per-op snapshots)"""
+    pas = build({'arrays': hc['arrays0']})
     integ = Integrator()
     integ.set_acceleration_evals(_AEval(pas))
-    integ.set_fixed_h(False)
     s = Solver.__new__(Solver)
     s.adaptive_timestep = True
     s.integrator = integ
@@ -393,75 +473,139 @@ def run_history(hc):
     s.dt = hc['dt']
     s._damping_factor = hc['damping']
     und = hc['dt'] / hc['damping']
-    outs = []
-
-    def conv(r):
-        if r is None:
-            return 'none'
-        r = float(r)
-        return 'inf' if math.isinf(r) else ('val', r)
-    for k, arrs in enumerate(hc['steps']):
-        if k > 0:
-            for pa, a in zip(pas, arrs):
+    head = 'cfl=%s und=%s' % (H.fbits(hc['cfl']), H.fbits(und))
+    lines, answers, snaps = ['hnew'], ['ok'], [None]
+    for pa in pas:
+        pa.update_min_max()
+    for op in hc['ops']:
+        snap = None
+        if op['op'] == 'set':
+            for pa, a in zip(pas, op['arrays']):
                 reload(pa, a)
-        for pa in pas:
-            pa.update_min_max()
-        out = {'fixed_cached': None}
-        out['h_now'] = [list(map(float, pa.get('h', only_real_particles=False)))
-                        for pa in pas]
-        try:
-            out['cts'] = conv(integ.compute_time_step(und, hc['cfl']))
-        except Exception as e:      # noqa
-            out['cts'] = ('raise', type(e).__name__)
-        try:
-            out['sol'] = conv(s._compute_timestep())
-        except Exception as e:      # noqa
-            out['sol'] = ('raise', type(e).__name__)
-        out['hmin'] = 'none'
-        out['real'] = [{c: list(map(float, pa.get(c))) for c in
-                        CRIT + ('dt_adapt',) if c in pa.properties} for pa in pas]
-        outs.append(out)
-    return outs
+            for pa in pas:
+                pa.update_min_max()
+            continue
+        if op['op'] == 'fix':
+            lines.append('hfix b=%d %s' % (1 if op['b'] else 0, _arr_tokens(pas)))
+            try:
+                integ.set_fixed_h(op['b'])
+                answers.append('ok')
+            except Exception as e:      # noqa
+                answers.append('error')
+            snap = {'op': 'fix', 'b': op['b'],
+                    'h': [v for pa in pas for v in
+                          map(float, pa.get('h', only_real_particles=False))]}
+        else:
+            lines.append('h%s %s %s' % (op['op'], head, _arr_tokens(pas)))
+            try:
+                r = _conv(integ.compute_time_step(und, hc['cfl']) if op['op'] == 'cts'
+                          else s._compute_timestep())
+            except Exception as e:      # noqa
+                r = ('raise', type(e).__name__ + ': ' + str(e)[:80])
+            answers.append(canon(r))
+            snap = {'op': op['op'], 'res': r,
+                    'h': [v for pa in pas for v in
+                          map(float, pa.get('h', only_real_particles=False))],
+                    'n': sum(pa.get_number_of_particles() for pa in pas),
+                    'real': [{c: list(map(float, pa.get(c))) for c in
+                              CRIT + ('dt_adapt',) if c in pa.properties} for pa in pas]}
+        snaps.append(snap)
+        lines.append('hstate')
+        answers.append(_impl_state(integ))
+        snaps.append(None)
+    return lines, answers, snaps
+
+
+def history_oracle(hc, snaps, R, case):
+    """the statement, evaluated step by step with its own bookkeeping: hmin is
+    the smallest h now, or with fixed_h the smallest h when it was last fixed"""
+    fixed = None            # None: not fixed; else min h at the latest set_fixed_h(True)
+    first_flag = None
+    und = hc['dt'] / hc['damping']
+    ncts = 0
+    for sn in snaps:
+        if sn is None:
+            continue
+        if sn['op'] == 'fix':
+            fixed = (min(sn['h']) if sn['h'] else math.inf) if sn['b'] else None
+            continue
+        ncts += 1
+        key = 'C19:history:' + ('first-call' if ncts == 1 else 'later-call')
+        res, real = sn['res'], sn['real']
+        has_adapt = any('dt_adapt' in r for r in real)
+        if first_flag is None:
+            first_flag = has_adapt
+        if has_adapt != first_flag:
+            R.count('history-oracle-skip:dt_adapt-property-changed')
+            continue
+        if sn['n'] == 0:
+            R.count('history-oracle-skip:no-particles')
+            continue
+        exp, why = None, 'no positive criterion'
+        done = False
+        if has_adapt:
+            vals = [v for r in real if 'dt_adapt' in r for v in r['dt_adapt']]
+            if not vals:
+                R.count('history-oracle-skip:no-real-dt_adapt')
+                continue
+            if min(vals) > 0:
+                exp, why, done = min(vals), 'min dt_adapt over real particles', True
+        if not done:
+            hmin = fixed if fixed is not None else min(sn['h'])
+            cands = []
+            mx = {c: max([v for r in real if c in r for v in r[c]] or [-1.0]) for c in CRIT}
+            if mx['dt_cfl'] > 0:
+                cands.append(hmin / mx['dt_cfl'])
+            if mx['dt_force'] > 0:
+                cands.append(math.sqrt(hmin / math.sqrt(mx['dt_force'])))
+            if mx['dt_visc'] > 0:
+                cands.append(hmin / mx['dt_visc'])
+            cands = [c for c in cands if not math.isinf(c)]
+            if cands:
+                exp = hc['cfl'] * min(cands)
+                why = 'cfl*min(criteria) with hmin=%r (%s)' % (
+                    hmin, 'fixed' if fixed is not None else 'current')
+        R.count('history-oracle-step')
+        if fixed is not None:
+            R.count('history-oracle-step:fixed_h')
+        if exp is None:
+            want = 'none' if sn['op'] == 'cts' else ('val', und)
+            if res != want:
+                R.prop_fail(key, case, 'no criterion applies: %r' % (want,), repr(res))
+        elif not (isinstance(res, tuple) and res[0] == 'val' and rel_eq(res[1], exp)):
+            R.prop_fail(key, case, '%s = %r at compute call %d of the history'
+                        % (why, exp, ncts), repr(res))
 
 
 def check_histories(hcases, R):
-    lines = []
-    meta = []
-    for hc in hcases:
-        outs = run_history(hc)
-        flag0 = any('dt_adapt' in a['props'] for a in hc['steps'][0])
-        for k, (arrs, im) in enumerate(zip(hc['steps'], outs)):
-            step_case = dict(hc, arrays=arrs)
-            ls = model_lines(step_case, im)[:2]
-            fl = '-' if k == 0 else ('1' if flag0 else '0')
-            ls = [ln.replace(' fixed=', ' flag=%s fixed=' % fl, 1) for ln in ls]
-            lines += ls
-            meta.append((hc, k, step_case, im, ls))
-    out = H.run_model('C19', lines)
-    if len(out) != len(lines):
-        raise SystemExit('model driver answered %d lines for %d' % (len(out), len(lines)))
-    for j, (hc, k, step_case, im, ls) in enumerate(meta):
-        mod = out[2 * j:2 * j + 2]
-        got = [canon(im['cts']), canon(im['sol'])]
-        case = {'history': hc, 'step': k}
-        for ln, m, g, nm in zip(ls, mod, got, ('cts', 'sol')):
+    runs = [run_history(hc) for hc in hcases]
+    flat = [ln for (ls, _, _) in runs for ln in ls]
+    out = H.run_model('C19', flat)
+    if len(out) != len(flat):
+        raise SystemExit('model driver answered %d lines for %d' % (len(out), len(flat)))
+    pos = 0
+    for hc, (ls, ans, snaps) in zip(hcases, runs):
+        mod = out[pos:pos + len(ls)]
+        pos += len(ls)
+        case = {'history': hc}
+        for k, (ln, m, g) in enumerate(zip(ls, mod, ans)):
             if m != g:
-                R.disagree({'case': case, 'line': ln}, m, g, 'history step %d %s' % (k, nm))
-        exp, why = oracle(step_case, im)
-        cts = im['cts']
-        key = 'C19:history:' + ('first-call' if k == 0 else 'later-call')
-        if exp == 'skip' or isinstance(exp, tuple):
-            R.count('history-oracle-skip')
-        elif exp is None:
-            if cts != 'none':
-                R.prop_fail(key, case, 'no criterion applies: None', repr(cts))
-        elif not (isinstance(cts, tuple) and cts[0] == 'val' and rel_eq(cts[1], exp)):
-            R.prop_fail(key, case, '%s = %r at step %d of the history' % (why, exp, k), repr(cts))
-        elif im['sol'] != cts:
-            R.prop_fail('C19:solver-uses-integrator-value', case, repr(cts), repr(im['sol']))
-        R.count('history-step')
-        R.case('H' + json.dumps(case, sort_keys=True), k > 0 and sum(len(a['tag']) for a in step_case['arrays']) > 0,
-               None)
+                R.disagree({'case': case, 'line': ln, 'index': k}, m, g,
+                           'history line %d (%s)' % (k, ln.split()[0]))
+                break
+        history_oracle(hc, snaps, R, case)
+        nset = sum(1 for o in hc['ops'] if o['op'] == 'set')
+        nfix = sum(1 for o in hc['ops'] if o['op'] == 'fix')
+        R.count('history')
+        R.count('history-ops', len(hc['ops']))
+        if nfix >= 2:
+            R.count('history:refix')
+        propsets = [tuple(tuple(sorted(a['props'])) for a in o['arrays'])
+                    for o in hc['ops'] if o['op'] == 'set']
+        if len(set(propsets)) > 1 or (propsets and propsets[0] != tuple(
+                tuple(sorted(a['props'])) for a in hc['arrays0'])):
+            R.count('history:property-set-changes')
+        R.case('H' + json.dumps(case, sort_keys=True), nset + nfix > 0, None)
         R.d['traces_validated_against_impl'] += 1
 
 
@@ -486,12 +630,43 @@ def corpus():
     ]
 
 
+def corpus_histories():
+    """hand-written histories for the classes of state the integrator caches"""
+    one = lambda name, h, props, tag=None: {'name': name, 'tag': tag or [0] * len(h),  # noqa
+                                            'h': h, 'props': props}
+    base = dict(cfl=0.25, dt=0.01, damping=1.0)
+    f0 = [one('fluid', [0.12, 0.12], {'dt_cfl': [2.0, 3.0]})]
+    f1 = [one('fluid', [0.06, 0.12], {'dt_cfl': [2.0, 3.0]})]
+    out0 = [one('fluid', [0.1, 0.1], {'dt_cfl': [1.0, 2.0], 'dt_force': [4.0, 1.0]}),
+            one('outlet', [], {})]
+    out1 = [one('fluid', [0.1], {'dt_cfl': [1.0], 'dt_force': [4.0]}),
+            one('outlet', [0.1], {'dt_cfl': [32.0], 'dt_force': [9.0]})]
+    return [
+        # set_fixed_h(True) twice around a refinement: h_minimum must be refreshed
+        dict(base, arrays0=f0, ops=[{'op': 'fix', 'b': True}, {'op': 'cts'},
+                                    {'op': 'set', 'arrays': f1},
+                                    {'op': 'fix', 'b': True}, {'op': 'cts'}, {'op': 'sol'}]),
+        # fixed, then un-fixed: the current h counts again
+        dict(base, arrays0=f0, ops=[{'op': 'fix', 'b': True}, {'op': 'set', 'arrays': f1},
+                                    {'op': 'cts'}, {'op': 'fix', 'b': False}, {'op': 'cts'}]),
+        # a bare, empty outlet buffer gains particles and criterion properties
+        dict(base, arrays0=out0, ops=[{'op': 'cts'}, {'op': 'set', 'arrays': out1},
+                                      {'op': 'cts'}, {'op': 'sol'}]),
+        # a criterion property is removed again
+        dict(base, arrays0=out1, ops=[{'op': 'cts'}, {'op': 'set', 'arrays': out0},
+                                      {'op': 'cts'}]),
+    ]
+
+
 def main():
     a = H.args()
     R = H.Result(
         'cases = sets of 1-4 particle arrays (0-8 particles, ghosts, optional '
         'dt_cfl/dt_force/dt_visc/dt_adapt, h over 4.5 decades, all-zero '
-        'criteria, fixed_h with later h change); distinct = distinct case '
+        'criteria, fixed_h with later h change) and op histories on one '
+        'integrator (set_fixed_h on/off repeatedly, particles/h/criterion '
+        'properties changing between compute calls, state compared after '
+        'every op); distinct = distinct case '
         'JSON; non-trivial = at least one particle and one criterion property')
     if a.replay:
         rp = json.load(open(a.replay))
@@ -507,7 +682,8 @@ def main():
     check_cases(corpus(), R, 99)
     R.count('corpus', len(corpus()))
     check_cases([gen_case(rng, big=(a.tier != 'quick')) for i in range(n)], R, 0)
-    check_histories([gen_history(rng) for i in range(n // 4)], R)
+    check_histories(corpus_histories(), R)
+    check_histories([gen_history(rng) for i in range(n // 2)], R)
     if a.broken or R.d['disagreements']:
         # failing-input search on the real code: the oracle above already ran
         # on every case; widen it.
